@@ -404,7 +404,7 @@ func CheckMain(id, tier string) int {
 	exit := 0
 	var replayPaths []string
 	if len(fresh) > 0 {
-		dir := filepath.Join(VerifDir, "replays", id)
+		dir := filepath.Join(VerifDir, "replays"+os.Getenv("VERIF_EVIDENCE_SUFFIX"), id)
 		_ = os.MkdirAll(dir, 0o755)
 		broken := false
 		for i, v := range fresh {
@@ -515,7 +515,8 @@ func writeEvidence(c *Check, tier string, seed int64, m *Result, wall time.Durat
 	b, _ := json.MarshalIndent(ev, "", " ")
 	tmp := filepath.Join(dir, c.ID+".json.tmp")
 	if err := os.WriteFile(tmp, append(b, '\n'), 0o644); err == nil {
-		_ = os.Rename(tmp, filepath.Join(dir, c.ID+".json"))
+		// VERIF_EVIDENCE_SUFFIX is set by bin/run-seed so that runs against a deliberately broken tree do not replace the real evidence
+		_ = os.Rename(tmp, filepath.Join(dir, c.ID+".json"+os.Getenv("VERIF_EVIDENCE_SUFFIX")))
 	}
 }
 
